@@ -266,19 +266,91 @@ impl Queryable for Value {
     where
         T: Into<QueryPath>,
     {
-        convert_js_path(&path.into())
-            .ok()
-            .and_then(|p| self.pointer(p.as_str()))
+        let mut node = self;
+        for step in path_steps(&path.into())? {
+            node = match step {
+                PathStep::Name(name) => node.as_object()?.get(&name)?,
+                PathStep::Index(idx) => node.as_array()?.get(idx)?,
+            };
+        }
+        Some(node)
     }
 
     fn reference_mut<T>(&mut self, path: T) -> Option<&mut Self>
     where
         T: Into<QueryPath>,
     {
-        convert_js_path(&path.into())
-            .ok()
-            .and_then(|p| self.pointer_mut(p.as_str()))
+        let mut node = self;
+        for step in path_steps(&path.into())? {
+            node = match step {
+                PathStep::Name(name) => node.as_object_mut()?.get_mut(&name)?,
+                PathStep::Index(idx) => node.as_array_mut()?.get_mut(idx)?,
+            };
+        }
+        Some(node)
     }
+}
+
+enum PathStep {
+    Name(String),
+    Index(usize),
+}
+
+/// Splits a path of name and index segments into the steps that lead to the element.
+/// A name step only descends into an object and an index step only into an array.
+fn path_steps(path: &str) -> Option<Vec<PathStep>> {
+    let JpQuery { segments } = parse_json_path(path).ok()?;
+    segments
+        .into_iter()
+        .map(|segment| match segment {
+            Segment::Selector(Selector::Name(name)) => Some(PathStep::Name(unescape_name(&name))),
+            Segment::Selector(Selector::Index(idx)) => usize::try_from(idx).ok().map(PathStep::Index),
+            _ => None,
+        })
+        .collect()
+}
+
+/// Returns the member name denoted by a name selector: strips the enclosing quotes and resolves the escapes.
+fn unescape_name(raw: &str) -> String {
+    let quoted = raw.len() >= 2
+        && ((raw.starts_with('\'') && raw.ends_with('\''))
+            || (raw.starts_with('"') && raw.ends_with('"')));
+    if !quoted {
+        return raw.to_string();
+    }
+    let mut name = String::with_capacity(raw.len());
+    let mut chars = raw[1..raw.len() - 1].chars();
+    let hex4 = |chars: &mut std::str::Chars| -> u32 {
+        (0..4).fold(0, |acc, _| {
+            acc * 16 + chars.next().and_then(|c| c.to_digit(16)).unwrap_or(0)
+        })
+    };
+    while let Some(c) = chars.next() {
+        if c != '\\' {
+            name.push(c);
+            continue;
+        }
+        match chars.next() {
+            Some('b') => name.push('\u{0008}'),
+            Some('f') => name.push('\u{000C}'),
+            Some('n') => name.push('\n'),
+            Some('r') => name.push('\r'),
+            Some('t') => name.push('\t'),
+            Some('u') => {
+                let mut code = hex4(&mut chars);
+                if (0xD800..0xDC00).contains(&code) {
+                    // the grammar guarantees a following low surrogate
+                    chars.next();
+                    chars.next();
+                    code = 0x10000 + ((code - 0xD800) << 10) + (hex4(&mut chars) - 0xDC00);
+                }
+                name.push(char::from_u32(code).unwrap_or('\u{FFFD}'));
+            }
+            Some(other) => name.push(other),
+            None => {}
+        }
+    }
+    name
 }
 
 fn convert_js_path(path: &str) -> Parsed<String> {
